@@ -170,7 +170,8 @@ Av1CSigs(prop, site, b, obu) ==       \* obu: the sequence header OBU as submitt
                      ELSE IF (b[3] \div 32) % 4 # r.hb * 2 + r.tb THEN "bit-depth"
                      ELSE IF b[3] % 4 # r.csp THEN (IF r.mono = 1 THEN "chroma-sample-position-of-monochrome" ELSE "chroma-sample-position")
                      ELSE "chroma")} ELSE {})
-    \cup (IF b[4] \div 32 # 0 THEN {LSig(prop, "Av1C", site, "reserved-bits")} ELSE {})
+    \* byte 4: reserved(3) = 0, initial_presentation_delay_present(1), then the delay minus one or, when absent, reserved(4) = 0
+    \cup (IF b[4] \div 32 # 0 \/ ((b[4] \div 16) % 2 = 0 /\ b[4] % 16 # 0) THEN {LSig(prop, "Av1C", site, "reserved-bits")} ELSE {})
     \cup (IF Slice(b, 5, Len(b)) # obu THEN {LSig(prop, "Av1C", site, "configOBUs")} ELSE {})
 
 (* ---- VP9 binding vpcC: FullBox(version 1, flags 0) + 8-byte record ---- *)
